@@ -2,7 +2,7 @@
 (* Dispatcher over every mutating event of the specification (store,        *)
 (* text validation, transposition); used by the bounded model, the          *)
 (* generators and trace validation.                                         *)
-EXTENDS StamValidation, StamTranspose
+EXTENDS StamValidation, StamTranspose, StamQuery, SequencesExt
 
 \* (Design-level definition. Conformance is checked at the level of the property - a RoundTrip event with format
 \*  "reindex": identifiers, items and references as seen through View are preserved and the compacted store satisfies
@@ -38,14 +38,30 @@ Reindex(st) ==
 AnnotateBatch(st, a) ==
     LET r == AnnotateAll(st, a.items) IN IF r.outcome = "ok" THEN r ELSE Err(st)
 
+\* C14 "by query": ADD ANNOTATION WITH [ID i;] [DATA set key value;]* TARGET ?y; { sub-query binding ?y }
+\* one annotation per result row of the sub-query (in result order), added as a batch.  a = [id, data, sub]
+ItemKey(it) == <<it.a, it.b, it.c>>
+QueryAddBuilders(st, a) ==
+    LET e == EvalQ(st, <<>>, a.sub)
+        rows == SortSeq(SetToSeq(e.rows), LAMBDA x, y : TupleLess(ItemKey(x[1]), ItemKey(y[1])))
+        tb(kind, r, off) == [kind |-> kind, a |-> r, b |-> NoRef, off |-> off, subs |-> <<>>]
+        target(it) == CASE it.t = "ann" -> tb("Ann", ByH(it.a), NoOffset)
+                        [] it.t = "text" -> tb("Text", ByH(it.a), Off("B", it.b, "B", it.c))
+                        [] OTHER -> tb("Res", ByH(it.a), NoOffset)
+    IN [ok |-> e.ok, items |-> [i \in DOMAIN rows |-> [id |-> a.id, target |-> target(rows[i][1]), data |-> a.data]]]
+QueryAdd(st, a) ==
+    \* (a sub-query that cannot be evaluated adds nothing; whether the call then reports an error is not C14's business)
+    LET b == QueryAddBuilders(st, a) IN IF ~b.ok THEN [outcome |-> "either", st |-> st, res |-> 0] ELSE AnnotateBatch(st, [items |-> b.items])
+
 ApplyAny(st, ev, a) ==
     CASE ev = "ProtectText" -> ProtectText(st, a)
       [] ev = "AnnotateBatch" -> AnnotateBatch(st, a)
       [] ev = "Reindex"     -> Reindex(st)
+      [] ev = "QueryAdd"    -> QueryAdd(st, a)
       [] ev = "Transpose"   -> Transpose(st, a)
       [] OTHER              -> Apply(st, ev, a)
 
-MutatingEventsAll == MutatingEvents \cup {"ProtectText", "Transpose", "AnnotateBatch", "Reindex"}
+MutatingEventsAll == MutatingEvents \cup {"ProtectText", "Transpose", "AnnotateBatch", "Reindex", "QueryAdd"}
 
 \* (a batch is in the domain if each item is, on the state it meets when the earlier items have been added)
 RECURSIVE BatchInDomain(_, _)
@@ -56,5 +72,6 @@ BatchInDomain(st, items) ==
 InDomainAny(st, ev, a) ==
     IF ev = "Transpose" THEN TransposeInDomain(st, a)
     ELSE IF ev = "AnnotateBatch" THEN BatchInDomain(st, a.items)
+    ELSE IF ev = "QueryAdd" THEN (~QueryAddBuilders(st, a).ok \/ BatchInDomain(st, QueryAddBuilders(st, a).items))
     ELSE InDomain(st, ev, a)
 =============================================================================
